@@ -146,7 +146,12 @@ func c01FreshBuf(c *Ctx) {
 		}
 		ok := false
 		why := "no callback invocation whose true result leads to a new buffer"
-		for _, fn := range append([]*ssa.Function{run}, run.AnonFuncs...) {
+		var loopFns []*ssa.Function
+		for _, fn := range withHelpers(run, 2) { // the loop body may be a closure or a method called from the loop
+			loopFns = append(loopFns, fn)
+			loopFns = append(loopFns, fn.AnonFuncs...)
+		}
+		for _, fn := range loopFns {
 			for _, b := range fn.Blocks {
 				for _, in := range b.Instrs {
 					ci, isCall := in.(*ssa.Call)
@@ -167,8 +172,8 @@ func c01FreshBuf(c *Ctx) {
 
 					for _, in2 := range tb.Instrs {
 						if c2, isC := in2.(*ssa.Call); isC {
-							if cal := c2.Call.StaticCallee(); cal != nil && storesFreshBuffer(cal) {
-								fresh = true
+							if cal := c2.Call.StaticCallee(); cal != nil && (storesFreshBuffer(cal) || returnsFreshBuffer(cal)) {
+								fresh = true // buf = newBuffer(), or the new buffer returned to the loop
 							}
 							if f2 := resolveFuncValue(c2.Call.Value, fn, 0); f2 != nil && storesFreshBuffer(f2) {
 								fresh = true
@@ -246,6 +251,27 @@ func resolveFuncValue(v ssa.Value, in *ssa.Function, d int) *ssa.Function {
 }
 
 // storesFreshBuffer: the function's body stores a make([]byte, ...) somewhere.
+// returnsFreshBuffer: every return of fn hands out a byte slice made in fn.
+func returnsFreshBuffer(fn *ssa.Function) bool {
+	if fn.Blocks == nil || fn.Signature.Results().Len() != 1 || !isByteSlice(fn.Signature.Results().At(0).Type()) {
+		return false
+	}
+	n := 0
+	for _, ret := range core.Returns(fn) {
+		n++
+		switch x := ret.Results[0].(type) {
+		case *ssa.MakeSlice:
+		case *ssa.Slice:
+			if al, ok := x.X.(*ssa.Alloc); !ok || !al.Heap {
+				return false
+			}
+		default:
+			return false
+		}
+	}
+	return n > 0
+}
+
 func storesFreshBuffer(fn *ssa.Function) bool {
 	for _, b := range fn.Blocks {
 		for _, in := range b.Instrs {
